@@ -44,6 +44,41 @@ BANNED = re.compile(r'(^|_)(rand|srand|random|time|clock|gettimeofday|clock_gett
                     r'chrono|system_clock|steady_clock')
 
 E_EST = sp.Rational(3, 2) / 2 ** 12       # |e| of _mm_rcp_ss / _mm_rsqrt_ss (Intel SDM), trusted base
+EST_BOUND = {'rcp_ss': E_EST, 'rsqrt_ss': E_EST,
+             'rcp14_ss': sp.Rational(1, 2 ** 14), 'rsqrt14_ss': sp.Rational(1, 2 ** 14)}     # vrcp14ss / vrsqrt14ss: 2^-14
+EST_RCP = ('rcp_ss', 'rcp14_ss')
+
+# ISA feature macros that select other code in the anchored headers -> compiler flag that defines them
+ISA_FLAGS = {'__AVX512F__': '-mavx512f', '__AVX512VL__': '-mavx512vl', '__AVX512DQ__': '-mavx512dq', '__AVX2__': '-mavx2',
+             '__AVX__': '-mavx', '__FMA__': '-mfma', '__SSE4_1__': '-msse4.1', '__SSE4_2__': '-msse4.2', '__SSE3__': '-msse3',
+             '__SSSE3__': '-mssse3', '__F16C__': '-mf16c', '__SSE2__': '-msse2', '__SSE__': '-msse'}
+KNOWN_MACROS = {'_WIN32', '__ARM_NEON', 'RKCOMMON_NO_SIMD', 'APPROXIMATE_SRGB', '_USE_MATH_DEFINES', 'NDEBUG', '__cplusplus'}
+ANCHOR_HEADERS = ('rkcommon/math/rkmath.h', 'rkcommon/math/vec.h', 'rkcommon/utility/random.h', 'rkcommon/math/constants.h')
+
+
+def conditional_configs(ctx):
+    """build configurations that change the code of the anchored headers: every ISA feature macro tested by a preprocessor
+    conditional there gives one more configuration (the property must hold in each).  -> ([(label, flags)], [unknown macros])"""
+    import os
+    found, unknown = [], []
+    for h in ANCHOR_HEADERS:
+        pth = os.path.join(ctx.root, h)
+        if not os.path.exists(pth):
+            continue
+        for line in open(pth, errors='replace'):
+            mt = re.match(r'^\s*#\s*(if|ifdef|ifndef|elif)\b(.*)$', line)
+            if not mt:
+                continue
+            for ident in re.findall(r'[A-Za-z_][A-Za-z_0-9]*', mt.group(2)):
+                if ident in ('defined',) or ident in KNOWN_MACROS:
+                    continue
+                if ident in ISA_FLAGS:
+                    if ident not in found:
+                        found.append(ident)
+                elif ident.startswith('__') and (h, ident) not in unknown:
+                    unknown.append((h, ident))
+    return [(m_.strip('_'), (ISA_FLAGS[m_],)) for m_ in found], unknown
+
 LIMIT = sp.Rational(1, 2 ** 20)
 
 
@@ -54,11 +89,12 @@ def cfgname(simd):
 class Unit:
     """IR module of the driver in one configuration + summaries with uniform error handling"""
 
-    def __init__(self, ctx, simd):
+    def __init__(self, ctx, simd, flags=(), label=None):
         self.ctx = ctx
         self.simd = simd
-        self.cfg = cfgname(simd)
-        self.mod = I.Module(ctx.front.emit_ir(DRIVER, 'TBB', simd=simd, extra=('-DNDEBUG',)))
+        self.flags = tuple(flags)
+        self.cfg = label or cfgname(simd)
+        self.mod = I.Module(ctx.front.emit_ir(DRIVER, 'TBB', simd=simd, extra=('-DNDEBUG',) + self.flags))
 
     def summary(self, rule, inst, name, file, banned_key=None, **opts):
         try:
@@ -120,8 +156,8 @@ def magnitudes(s, kind, bits):
         for dname, t in P.fpvals:
             t0 = t.xreplace({d: 0 for d in t.free_symbols if d.name.startswith('_d')})
             t0 = t0.xreplace({x: X ** 2 if kind == 'rsqrt' else X})
-            t0 = t0.replace(lambda z: I.is_app(z, 'rcp_ss') or I.is_app(z, 'rsqrt_ss'),
-                            lambda z: 1 / z.args[0] if z.func.__name__ == 'rcp_ss' else 1 / sp.sqrt(z.args[0]))
+            t0 = t0.replace(lambda z: any(I.is_app(z, nm) for nm in EST_BOUND),
+                            lambda z: 1 / z.args[0] if z.func.__name__ in EST_RCP else 1 / sp.sqrt(z.args[0]))
             if t0.has(I.Sel) or unknown_atoms(t0, ()) or (t0.free_symbols - {X}):
                 continue
             t0 = sp.cancel(sp.together(t0))
@@ -198,8 +234,8 @@ def check_refinement(ctx, U):
             def rep(z):
                 e = est.setdefault(z, sp.Symbol('e%d' % (len(est) + 1), real=True))
                 a = z.args[0]
-                return (1 + e) / a if z.func.__name__ == 'rcp_ss' else (1 + e) / sp.sqrt(a)
-            t = t.replace(lambda z: I.is_app(z, 'rcp_ss') or I.is_app(z, 'rsqrt_ss'), rep)
+                return (1 + e) / a if z.func.__name__ in EST_RCP else (1 + e) / sp.sqrt(a)
+            t = t.replace(lambda z: any(I.is_app(z, nm) for nm in EST_BOUND), rep)
             other = unknown_atoms(t, ())
             if other:
                 ctx.undecided(R, inst, 'the result contains %s, which has no error model' % other[0], RKMATH)
@@ -214,7 +250,7 @@ def check_refinement(ctx, U):
                               key=key + 'input-dependent', path=['case: ' + show_guard(g), 'result: %s' % s.value('ret')])
                 bad = True
                 break
-            bounds = {e: E_EST for e in est.values()}
+            bounds = {e: EST_BOUND[z.func.__name__] for z, e in est.items()}
             for z in small:
                 if z.name.startswith('_d'):
                     bounds[z] = u * 2 ** loose.get(z.name, 0)
@@ -226,8 +262,11 @@ def check_refinement(ctx, U):
                 break
             ideal = sp.factor(err.xreplace({z: 0 for z in small if z.name.startswith('_d')}))
             if b >= LIMIT:
-                ctx.violation(R, inst, 'relative error %s (estimate error e, |e| <= 1.5*2^-12) is bounded only by %.3g * 2^-20 '
-                              'including %d rounded operations; required < 2^-20' % (ideal, float(b * 2 ** 20), s.nround), RKMATH,
+                ctx.violation(R, inst, 'relative error %s (estimate error e of %s, |e| <= %s) is bounded only by %.3g * 2^-20 '
+                              'including %d rounded operations; required < 2^-20'
+                              % (ideal, ', '.join(sorted({z.func.__name__ for z in est})) or 'no estimate',
+                                 ', '.join(sorted({'2^%.1f' % float(sp.log(EST_BOUND[z.func.__name__], 2)) for z in est})) or '-',
+                                 float(b * 2 ** 20), s.nround), RKMATH,
                               key=key + 'error-bound', path=['case: ' + show_guard(g), 'result: %s' % s.value('ret')])
                 bad = True
                 break
@@ -279,7 +318,7 @@ def check_rcp_safe(ctx, U):
                     arg = cand
                     break
             if arg is None:
-                est = I.atoms(t, 'rcp_ss')
+                est = [a_ for nm in EST_RCP for a_ in I.atoms(t, nm)]
                 cand = est[0].args[0] if len(est) == 1 else sp.cancel(1 / t)
                 if not unknown_atoms(cand, ('fabs', 'copysign')) and I.equal(t, Rt.xreplace({x: cand})):
                     arg = cand
@@ -479,6 +518,65 @@ def check_definitions(ctx, U):
                               RKMATH, key='%s|%s|%s|definition' % (R, RKMATH, what.split('<')[0]))
         except Undecided as e:
             ctx.undecided(R, inst, str(e), RKMATH)
+    # ---- lerp: element types other than float (the definition converts each operand to float before any arithmetic)
+    for kname, what, conv, cast in (('K_lerp_u', 'lerp<unsigned>', 'uitofp_32', 'fptoui32'), ('K_lerp_i', 'lerp<int>', 'sitofp_32', 'fptosi32')):
+        inst = '%s [%s]' % (what, U.cfg)
+        s = U.summary(R, inst, kname, RKMATH, nonneg=lambda nm: nm in ('a', 'b') and kname == 'K_lerp_u')
+        if s is None:
+            continue
+        n += 1
+        try:
+            t = s.value('ret')
+            inner = t.args[0] if I.is_app(t, cast) else None
+            pre = [z for z in I.all_atoms(t) if z.func.__name__ in ('uitofp_32', 'sitofp_32', 'zext32_64', 'sext32_64') and not z.args[0].is_Symbol]
+            if inner is not None and I.equal(inner, (1 - f) * a + f * b):
+                ctx.ok(R, inst, '(T)((1-f)*float(a) + f*float(b))', RKMATH)
+            elif pre:
+                ctx.violation(R, inst, 'the operands are combined in the element type before the conversion to float: %s is evaluated in %s, '
+                              'where it wraps around (for unsigned T whenever b < a); the definition (1-f)*a + f*b converts a and b first'
+                              % (pre[0].args[0], what[5:-1]), RKMATH, key='%s|%s|lerp|integer-arithmetic' % (R, RKMATH))
+            elif unknown_atoms(t, (cast,)):
+                ctx.undecided(R, inst, 'result %s' % t, RKMATH)
+            else:
+                ctx.violation(R, inst, 'computes %s, definition is %s((1-f)*a + f*b)' % (t, cast), RKMATH,
+                              key='%s|%s|lerp|definition' % (R, RKMATH))
+        except Undecided as e:
+            ctx.undecided(R, inst, str(e), RKMATH)
+    # ---- lerp: no intermediate exceeds max(|a|, |b|) for f in [0, 1] (so finite operands never overflow)
+    for kname, what in (('K_lerp', 'lerp<float>'), ('K_lerp_d', 'lerp<double>')):
+        inst = '%s intermediates [%s]' % (what, U.cfg)
+        s = U.summary(R, inst, kname, RKMATH)
+        if s is None:
+            continue
+        n += 1
+        worst = None
+        skipped = 0
+        for P_ in s.paths:
+            for _, t in P_.fpvals:
+                if unknown_atoms(t, ()) or t.has(I.Sel) or not (t.free_symbols <= {f, a, b}):
+                    skipped += 1
+                    continue
+                try:
+                    pl = sp.Poly(sp.expand(t), f, a, b)
+                except sp.PolynomialError:
+                    skipped += 1
+                    continue
+                if any(max(m[i] for m, _ in pl.terms()) > 1 for i in range(3)):
+                    skipped += 1
+                    continue
+                # multilinear: the extreme values over f in [0,1], |a|,|b| <= M are attained at the corners of the box
+                mx = max(abs(t.xreplace({f: fv, a: av, b: bv})) for fv in (0, 1) for av in (-1, 1) for bv in (-1, 1))
+                if worst is None or mx > worst[0]:
+                    worst = (mx, t)
+        if worst is None or skipped:
+            ctx.undecided(R, inst, 'intermediate results are not all multilinear in (f, a, b)', RKMATH)
+        elif worst[0] > 1:
+            ctx.violation(R, inst, 'the intermediate `%s` reaches %s * max(|a|, |b|) for f in [0, 1]: it overflows to infinity for finite '
+                          'operands of opposite sign near the largest float (lerp(0.5, -3e38, 3e38) = inf, lerp(0, a, b) = NaN), whereas every '
+                          'intermediate of the definition (1-f)*a + f*b stays within max(|a|, |b|)' % (worst[1], worst[0]), RKMATH,
+                          key='%s|%s|lerp|intermediate-range' % (R, RKMATH))
+        else:
+            ctx.ok(R, inst, 'every intermediate is bounded by max(|a|, |b|) for f in [0, 1] (corner values of the multilinear terms)', RKMATH)
     # ---- deg2rad
     for kname, what, mant in (('K_deg2rad', 'deg2rad<float>', 23), ('K_deg2rad_d', 'deg2rad<double>', 52)):
         inst = '%s [%s]' % (what, U.cfg)
@@ -908,8 +1006,12 @@ def check_distributions(ctx, U):
             ctor_members_d = {k: t for k, t in fd.items() if t not in (lo, hi) and not only_reads(t, ('lo', 'hi'))}
         except Undecided:
             pass
-    for kname, what, gen, off_hi in (('K_urd_gen', 'uniform_real_distribution<float>(RkvGen)', 'gen', 4),
-                                     ('K_urd_gen_d', 'uniform_real_distribution<double>(RkvGen)', 'gen', 8),
+    GEN32 = dict(span=1024, mn=16, mx=1040, conv='uitofp_32')
+    GEN64 = dict(span=2 ** 40 + 1024, mn=16, mx=2 ** 40 + 1040, conv='uitofp_64')
+    for kname, what, gen, off_hi in (('K_urd_gen', 'uniform_real_distribution<float>(RkvGen)', GEN32, 4),
+                                     ('K_urd_gen_d', 'uniform_real_distribution<double>(RkvGen)', GEN32, 8),
+                                     ('K_urd_gen64', 'uniform_real_distribution<float>(RkvGen64)', GEN64, 4),
+                                     ('K_urd_gen64_d', 'uniform_real_distribution<double>(RkvGen64)', GEN64, 8),
                                      ('K_urd_pcg', 'uniform_real_distribution<float>(pcg32)', 'pcg', 4)):
         inst = '%s [%s]' % (what, U.cfg)
         s = U.summary(R, inst, kname, RANDOM, banned_key=key(URD, 'impure'))
@@ -953,18 +1055,27 @@ def check_distributions(ctx, U):
                 if co or not I.equal(cl, 1 - cu):
                     probs.append(('form', 'result %s is not l + k * (u - l)' % t))
                     continue
-                if gen == 'gen':
-                    span, mn, v = 1024, 16, sym('g[0]')
-                    want = I.atom('uitofp_32', v - mn)
-                    k = sp.expand(cu * span)
-                    if not (I.equal(k, want) or I.equal(k, v - mn)):
-                        r = sp.cancel(k / want)
-                        if r.is_Rational:
-                            probs.append(('span', 'k = (g - min) * %s; expected (g - min) / (max - min) = (g - 16) / 1024' % (r / span)))
-                        elif any(I.equal(k, I.atom('uitofp_32', v - m2)) for m2 in (0, 1040)):
-                            probs.append(('min', 'k = %s does not subtract the generator minimum' % cu))
-                        else:
-                            und.append('k = %s' % cu)
+                if gen != 'pcg':
+                    span, mn, v = gen['span'], gen['mn'], sym('g[0]')
+                    want = I.atom(gen['conv'], v - mn)
+                    k = sp.expand(cu)
+                    r = sp.cancel(k / want)
+                    tol = sp.Rational(span, 2 ** (23 if off_hi == 4 else 52))     # T(max - min) is rounded to T once
+                    if I.equal(k * span, v - mn):
+                        pass
+                    elif r.is_Rational and r > 0:
+                        used = 1 / r
+                        if abs(used - span) > tol:
+                            how = ''
+                            if used == span % 2 ** 32:
+                                how = ' - that is the span truncated to 32 bits (its low 32 bits), although the generator delivers %d bits' \
+                                      % (span.bit_length())
+                            probs.append(('span', 'k = (g - min) / %s; the span max - min of the generator is %s%s: the values leave [l, u] by '
+                                          'the factor %.4g' % (used, span, how, float(span / used))))
+                    elif any(I.equal(k * span, I.atom(gen['conv'], v - m2)) for m2 in (0, gen['mx'])):
+                        probs.append(('min', 'k = %s does not subtract the generator minimum' % cu))
+                    else:
+                        und.append('k = %s' % cu)
                 else:
                     raw = sr.value('ret').xreplace({sym('d[0]'): sym('g[0]'), sym('d[8]'): sym('g[8]')}) if sr is not None else None
                     want = I.atom('uitofp_32', raw)
@@ -1061,8 +1172,17 @@ def run(ctx):
     ctx.assume('comparisons are read without NaN operands; -0.0 is not distinguished from +0.0')
     ctx.assume('sqrt / sqrtf are correctly rounded; pow, round, fabs are the C library functions (not analysed)')
     counts = {}
-    for simd in (True, False):
-        U = Unit(ctx, simd)
+    units = [Unit(ctx, True), Unit(ctx, False)]
+    isa, unknown = conditional_configs(ctx)
+    for h_, m_ in unknown:
+        ctx.undecided('R-C07-1', 'build configurations of %s' % h_, 'code is conditional on the macro %s, for which no build configuration '
+                      'is analysed' % m_, h_)
+    for label, flags in isa:
+        # preprocessor-conditional code in the anchored headers: the clauses must hold in that build as well
+        units.append(Unit(ctx, True, flags, 'SIMD+' + label))
+        ctx.note('extra build configuration %s (%s): selected by a preprocessor conditional in the anchored headers' % (label, ' '.join(flags)))
+    base_units = 2
+    for iu, U in enumerate(units):
         for rule, fn in (('R-C07-1', check_refinement), ('R-C07-2', check_rcp_safe), ('R-C07-3', check_definitions),
                          ('R-C07-4', check_packing), ('R-C07-5', check_distributions)):
             counts[rule] = counts.get(rule, 0) + fn(ctx, U)
